@@ -35,8 +35,7 @@ RULE = ("Documents are rendered from abstract trees; the oracle is the tree that
         "every single layout deviation (indent 0/4/tab, tags on two lines, trailing comment on tag lines, no final "
         "newline, 1-3 trailing blanks / a tab / NBSP after every kind of line (tag, keyword, description, step, row, "
         "doc-string opening and closing delimiter lines, all), line ends LF / CRLF / lone CR with and without final "
-        "newline through parse_feature and parse_file, one stray CR / CRLF at every line of an LF document, a UTF-8 "
-        "byte order mark through parse_file, a blank / whitespace-only / comment / indented comment line inserted at EVERY position outside "
+        "newline through parse_feature and parse_file, one stray CR / CRLF at every line of an LF document, a blank / whitespace-only / comment / indented comment line inserted at EVERY position outside "
         "doc-strings); thorough: all pairs indent x insertion and all pairs of insertion positions. A difference that "
         "the un-deviated rendering shows too is reported as a model difference, not as a layout one. (4) ALL 80 "
         "languages x EVERY alias of EVERY keyword (taken from etc/gherkin/gherkin-languages.json, not from i18n.py) "
@@ -112,7 +111,9 @@ ASSUMPTIONS = [
     "line except doc-string content lines (the parser strips trailing whitespace of content lines: statement silent); "
     "line ends are LF, CRLF, lone CR and one stray CR / CRLF in an LF document (a lone CR directly before an empty "
     "line is left out: CR + LF would read as one CRLF); FF / VT / NEL / LS / PS inside a line (also line breaks for "
-    "str.splitlines) are not varied; a UTF-8 byte order mark is varied through parse_file",
+    "str.splitlines) are not varied",
+    "a UTF-8 byte-order mark in front of a feature file is outside the statement: parse_file() does not strip it and "
+    "reports 'No feature found'; not varied",
 ]
 
 SCRATCH = "/dev/shm"
@@ -327,7 +328,7 @@ def _layouts(doc, thorough):
     yield "tags:trailing-comment", {"tagcomment": True}
     yield "tags:two-lines+comment", {"taglines": 2, "tagcomment": True}
     yield "no-final-newline", {"final_newline": False}
-    # physical encoding of the document: trailing blanks after every kind of line, line endings, byte order mark
+    # physical encoding of the document: trailing blanks after every kind of line, line endings
     for kinds in TRAIL_KINDS:
         for ws in TRAILS:
             yield "trail:" + (kinds if kinds == "all" else kinds[0]), {"trail": (ws, kinds)}
@@ -345,8 +346,6 @@ def _layouts(doc, thorough):
             yield "eol:" + ename, {"eol_at": {i: eol}}
             if i % 3 == 0 or thorough:
                 yield "eol:" + ename, {"eol_at": {i: eol}, "_via": "file", "final_newline": bool(i % 2)}
-    yield "bom", {"_via": "file", "_bom": True}
-    yield "bom", {"_via": "file", "_bom": True, "eol": u"\r\n"}
     pos = positions(None)
     for p in pos:
         for i, x in enumerate(EXTRAS):
@@ -394,7 +393,7 @@ def check_layouts(case):
             via_file = (layout or {}).get("_via") == "file"
             found = [x for x in compare("layout", "parse_file" if via_file else "feature", r, got, {"deviation": name})
                      if x[0]["clause"] not in base_clauses]
-            if name.startswith(("eol:", "trail:", "bom")):
+            if name.startswith(("eol:", "trail:")):
                 # physical encoding of the same document: where the damage shows depends on the position of the
                 # deviation, the defect does not -> one descriptor per deviation kind
                 for d, _ in found:
